@@ -53,6 +53,8 @@ def cycles(ctx, behs, iters):
             rp = ctx.save_replay("cycle_crash_%d.txt" % n, line + "\n" + err)
             ctx.violation("cyclic behaviour crashed: " + line[:300], rp)
             continue
+        if r.get("stopped"):
+            continue       # the model mispredicted a compile class: not a cycle of the real system
         n += 1
         grow = r["heap_end"] - r["heap_at_50pct"]
         if grow > 4096 or r["nreg_end"] > r["nreg_at_20pct"] or r["used_end"] != 0:
